@@ -77,7 +77,7 @@ class Session:
         self.s = ch.stream("script")
         self.h = ch.stream("headers")
         self.small = small
-        self.wt = cfg.chance(0.35 if small else 0.5)
+        self.wt = cfg.chance(0.5)
         self.qc = FakeQuic(True)
         self.qs = FakeQuic(False)
         self.hc = H3Connection(self.qc, enable_webtransport=self.wt)
@@ -140,7 +140,7 @@ class Session:
 
     def _create(self):
         s = self.s
-        k = s.weighted([4, 6, 1.5, 2.5, 1])
+        k = s.weighted([4, 6, 1.5, 2.5, 1] if not (self.small and self.wt) else [2, 3, 3, 4, 1])
         if k == 1 and self.requests:
             sid = self.requests.pop(s.choose(len(self.requests)))
             steps = self._body_plan(gen_response_headers(self.h, self.small))
@@ -350,6 +350,8 @@ def describe_diff(kind, sid, want, got):
         return "same", ""
     i, x, y = fd
     disc = "%s/want=%s/got=%s" % (kind, item_brief(x), item_brief(y))
+    if x is not None and y is not None and x[0] == y[0]:
+        disc += "(content differs)"
     msg = "stream %s (%s) item %d: expected %s, got %s" % (sid, kind, i, _short(x), _short(y))
     return disc, msg
 
@@ -493,7 +495,8 @@ def run_one(seed, tier="quick", variant=None, replay=None):
                      if 2 <= len(st.data[sid]) <= 12 or (len(st.data[sid]) == 1 and st.fin[sid])]
             if cands:
                 kinds_present = sorted(set(sess.kind[d].get(sid, "?") for d, sid in cands))
-                want_kind = kinds_present[pick.choose(len(kinds_present))]
+                want_kind = kinds_present[pick.weighted([
+                    {"control": 1, "qpack-enc": 2}.get(k, 5) for k in kinds_present])]
                 cands = [c for c in cands if sess.kind[c[0]].get(c[1], "?") == want_kind]
                 d, sid = cands[pick.choose(len(cands))]
                 _, st, rc, enc = [x for x in dirs if x[0] == d][0]
